@@ -123,6 +123,11 @@ def sprite_extraction(F, S):
 
 def check(F, run, tier):
     S = Summaries(F)
+    # saving what was loaded reads no memory outside the loaded object: every raw (pointer, count) write of the picture
+    # savers is bounded by the extent of what the pointer addresses
+    from . import c18 as _c18
+    _ow, _nw = _c18.raw_write_extents(F, S)
+    run.add([o for o in _ow if o.instance.split(":")[0] in ("tileset", "bmp", "prt")])
     from ..rules_archive import discarded_exception_obligations
     discarded_exception_obligations(F, S, run)
     from ..rules_archive import cstring_obligations
